@@ -19,10 +19,27 @@ The provider counts what it delivers (`deliver`, commit 8ec6c57: the decoder its
 -/
 import Pandora.Model.C07Base
 
+namespace Pandora.Go
+/-- makes `open Pandora Pandora.Go` (written by the translator /verif/gen into `Gen/AmmoDec.lean`) resolve without Mathlib -/
+def c07NamespaceAnchor : Unit := ()
+end Pandora.Go
+
 namespace Pandora.Model.C07
 
 /-- `bufio.MaxScanTokenSize` -/
 def maxTok : Nat := 65536
+
+/-- how a decoder obtains the lines of the ammo file (the vocabulary of the regenerated facts `Pandora.Gen.AmmoDec`) -/
+inductive LineReader where
+  | scanner (limit : Nat)        -- `bufio.Scanner`, default split (`ScanLines`) and buffer: `Scan`/`Text`; a line of `limit` bytes or more is `ErrTooLong`
+  | readString (delim : Nat)     -- `bufio.Reader.ReadString(delim)`: the line including the delimiter, any length
+  | other (what : String)        -- anything else (ReadLine, ReadBytes, ReadSlice, a Scanner with its own buffer …): not what this model describes
+deriving DecidableEq, Repr
+
+/-- the read primitives the three pass functions below describe -/
+def uriReaderM : LineReader := .scanner maxTok
+def uripostReaderM : LineReader := .readString LF.toNat
+def rawReaderM : LineReader := .readString LF.toNat
 
 def dropCR (s : Bytes) : Bytes :=
   match s.getLast? with
